@@ -230,7 +230,25 @@ for _n, (_cls, _D, _ua, _pf, _bd) in sorted(METRICS.items()):
         register(Obligation(fnname + "#POST:bound", ("C05",), s, c, p, modules=MOD, functions=[fnname]))
 
 
-# ------------------------------------------------------------------ LEPS: bounded stand-in (loop with data-dependent search)
+# ------------------------------------------------------------------ LEPS: proved (searchsorted contract) and, in addition, bounded
+def D_leps(S, o, f, A):
+    n = S.to_num(S.count(o))
+
+    def F(x):
+        # empirical CDF of the observations
+        return S.to_num(S.count_where(o, lambda j: S.at(o, j) <= x)) / n
+    return S.sum_where(o, lambda i: abs(F(S.at(f, i)) - F(S.at(o, i)))) / n
+
+
+METRICS["leps"] = ("Leps", D_leps, False, True, True)
+for _kind, _mk in (("definition", _det_def), ("perfect", _det_perfect), ("bound", _det_bound)):
+    s, c, p = _mk("leps")
+    register(Obligation("verif.metric.Leps._compute_from_obs_fcst#POST:%s" % _kind, ("C05",), s, c, p, modules=MOD,
+                        functions=["verif.metric.Leps._compute_from_obs_fcst"],
+                        assumptions=["np.searchsorted(np.sort(x), v, side='right')[i] = number of elements of x that are <= v[i] (assumed contract)"]))
+
+
+# ------------------------------------------------------------------ LEPS: bounded stand-in as well (concrete NumPy)
 def _leps():
     def setup(G):
         inp = Bag(obs=G.array("obs", ("n",), kinds=(FIN,), min_size=1), fcst=G.array("fcst", ("n",), kinds=(FIN,), min_size=1))
